@@ -299,6 +299,11 @@ pub fn check_pos_level(ctx: &mut Ctx, p: &Pos, b: &Board, level: u8) {
             }
             let t = text::san(p, &legal, m);
             san_text(ctx, &mut st, &t, Some(m), chain);
+        } else {
+            // what a player would write for this illegal move (piece letter + destination): the
+            // text may denote another, legal, move or nothing
+            let t = text::san_naive(p, m);
+            san_text(ctx, &mut st, &t, None, chain);
         }
     }
     ctx.add(MV, 1);
@@ -411,9 +416,9 @@ pub fn run(run: &mut Run) {
     };
     run_universes(run, &l1, DISAGREE, &check_pos_mid);
     let l0 = if thorough {
-        Sel { ep: Some(true), castle: Some(true), promo: Some(true), reach: Some(4), counters: true, ..Default::default() }
+        Sel { ep: Some(true), castle: Some(true), promo: Some(true), reach: Some(4), counters: true, pin2: Some(4), ..Default::default() }
     } else {
-        Sel { ep: Some(false), castle: Some(false), promo: Some(false), reach: Some(3), counters: true, ..Default::default() }
+        Sel { ep: Some(false), castle: Some(false), promo: Some(false), reach: Some(3), counters: true, pin2: Some(2), ..Default::default() }
     };
     run_universes(run, &l0, DISAGREE, &check_pos);
     p30_strings(run, if thorough { 4 } else { 3 });
